@@ -102,7 +102,8 @@ def _gen(g):
     elif scenario == "close":
         case["msgs"] = {"a": msgs(3, [1, 100, 4096, 65536]), "b": []}
         case["bufs"] = None
-        case["local"] = {"who": g.choice(["reader", "writer"]), "leftover": g.bool(), "first": g.choice([13, 15, 20, 1000])}
+        case["local"] = {"who": g.choice(["reader", "writer"]), "leftover": g.bool(), "first": g.choice([13, 15, 20, 1000]),
+                         "parked": g.chance(45), "big": g.choice([100, 1 << 20, 4 << 20, 4 << 20])}
     else:
         case["msgs"] = {"a": msgs(2, [100, 4096]), "b": []}
         case["bufs"] = 16384
@@ -428,6 +429,44 @@ async def scenario_pingpong(case, out, stats, w, r):
 async def scenario_close(case, out, stats, w, r):
     total = sum(case["msgs"]["a"])
     prog = {}
+    if case["local"].get("parked"):
+        # a receive() is already parked on the stream that is about to be closed locally; meanwhile the same stream
+        # sends more than the kernel buffers hold (its writer has to wait for the peer to drain); then it is closed:
+        # the parked receive() must come back (ClosedResourceError), not block on a closed stream
+        res = {}
+        big = case["local"].get("big", 4 << 20)
+
+        async def parked():
+            try:
+                with anyio.fail_after(8):
+                    res["r"] = ("data", await w.receive(10))
+            except ClosedResourceError:
+                res["r"] = ("closed",)
+            except TimeoutError:
+                res["r"] = ("blocked",)
+            except (EndOfStream, BrokenResourceError) as e:
+                res["r"] = ("other", type(e).__name__)
+
+        async with create_task_group() as tg:
+            tg.start_soon(parked)
+            await anyio.sleep(0.02)
+
+            async def drain():
+                got = await recv_all(r, [1 << 20], out, "r", stats, limit=big)
+                if got != big:
+                    out.bad("bytes-lost-or-extra", "close-parked", f"{got} of {big}")
+
+            tg.start_soon(drain)
+            await w.send(pat(0, big))
+            await anyio.sleep(0.02)
+            await w.aclose()
+        if res.get("r", ("none",))[0] == "blocked":
+            out.bad("receive-after-local-close-blocked", "parked-receiver", f"{res}")
+        elif res.get("r", ("none",))[0] not in ("closed",):
+            out.bad("wrong-error-after-local-close", "parked-receive:" + str(res.get("r")), "")
+        stats["close_with_parked_receive"] += 1
+        stats["close"] += 1
+        return
     await send_all(w, case["msgs"]["a"], prog, out, "w")
     local = case["local"]
     if local["who"] == "writer":
@@ -641,7 +680,7 @@ def run_case(case) -> Outcome:
                            "chunk_split_by_max_bytes", "watchdog_rerun", "stall_after_first_receive",
                            "stall_after_small_reads", "busy_with_buffered_data",
                            "receive_cancelled_while_waiting", "peer_half_closed_while_writer_parked",
-                           "receive_in_cancelled_scope"], 0)
+                           "receive_in_cancelled_scope", "close_with_parked_receive"], 0)
     hangs = 0
     for attempt in range(3):
         trial = Outcome()
